@@ -99,9 +99,16 @@ def sanitizer_key(text):
         cls = re.sub(r"'[^']*'", "T", cls)[:60]
     else:
         cls = 'SEGV'
-    if cls == 'stack-overflow':
-        # the innermost /repo frame of a runaway recursion is the recursing function
-        pass
+    if cls in ('stack-overflow', 'SEGV'):
+        # a runaway recursion dies wherever the guard page is hit: name the function that recurses instead
+        import collections as _c
+        cnt = _c.Counter(_fn(f.group(1)) + '@' + os.path.basename(f.group(2).decode('latin1')) for f in FRAME_RE.finditer(text))
+        if cnt:
+            fn0, n0 = cnt.most_common(1)[0]
+            if n0 >= 10:
+                top = sorted(k for k, v in cnt.items() if v >= n0 - 1)
+                pick = next((k for k in top if 'load' in k.lower() or 'recurs' in k.lower()), top[0])
+                return 'stack-overflow', 'recursion:' + pick
     fm = FRAME_RE.search(text, m.end())
     fn = 'unknown'
     if fm:
